@@ -55,6 +55,10 @@ func (f *cursorResolver) ProcessBlock(blk *pbbstream.Block, obj interface{}) err
 	if f.passThroughCursor && blk.Number <= f.cursor.LIB.Num() {
 		// in passThroughMode, we send everything up to LIB
 		// then we start accumulating until we reach the cursor block
+		if blk.Id == f.cursor.Block.ID() {
+			// the target cursor sits on a final block (e.g. a final-blocks-only cursor): nothing to resolve
+			f.resolved = true
+		}
 		return f.handler.ProcessBlock(blk, obj)
 	}
 
